@@ -176,7 +176,7 @@ Proof.
   { unfold first. repeat apply orelse_ok;
       auto using field_ok, repeater_placeholder_ok, repeater_number_ok, repeater_ok, white_space_ok. }
   destruct first; try exact Hf.
-  destruct (lit (cquote ctx) (cattr ctx) (cexpr ctx) (cexpr ctx) prev false s) as [[v n] e] eqn:El.
+  destruct (lit (cquote ctx) (cattr ctx) (Z.min (cexpr ctx) 1) (cexpr ctx) prev false s) as [[v n] e] eqn:El.
   apply lit_bound in El.
   destruct n; cbn [fst].
   - repeat apply orelse_ok; auto using operator_ok, quote_ok, bracket_ok.
